@@ -562,3 +562,18 @@ def main(ctx):
     lhunits = [(m, pat, d) for m in lmarks for pat in ("split", "one-bin", "gaps", "late") for d in (-1, 0, 1)]
     ctx.lattice("long-inputs-at-block-marks", lhunits, one_longhist,
                 bounds=dict(marks=list(lmarks), patterns=["split", "one-bin", "gaps", "late"], offsets=[-1, 0, 1], engines=["compiled", "python"]))
+
+    # ------------------------------------------------------------ one Binner, many distinct limit pairs, then each again
+    from mc.worlds import revisit
+    RDATA = np.array([(k * 0.61803) % 10.0 for k in range(60)])
+    LIMS = [(round(0.1 * k, 2), round(9.9 - 0.1 * k, 2)) for k in range(42)]
+
+    def _rb(b, c):
+        b.dohist(binsize=c[3], min=c[1], max=c[2], rev=True)
+        return [np.asarray(b["hist"]), np.asarray(b["rev"])]
+    revisit(ctx, "revisit-after-many-distinct-calls", {
+        "Binner.dohist(42 limit pairs)": (lambda: stat.Binner(RDATA.copy()), [("dohist", lo, hi, 0.5) for lo, hi in LIMS], _rb),
+        "Binner.dohist(42 bin sizes)": (lambda: stat.Binner(RDATA.copy()), [("dohist", 1.0, 9.0, round(0.1 + 0.05 * k, 3)) for k in range(42)], _rb),
+        "histogram(42 limit pairs)": (lambda: None, [("hist", lo, hi) for lo, hi in LIMS],
+                                      lambda o, c: [np.asarray(v) for v in stat.histogram(RDATA, binsize=0.5, min=c[1], max=c[2], rev=True)]),
+    })
